@@ -12,6 +12,7 @@ import (
 type nd struct {
 	tok     int
 	id, pub string
+	sign    func(hash string) (string, error)
 }
 
 func mkNode(tok, keyIdx int) *nd {
@@ -19,7 +20,7 @@ func mkNode(tok, keyIdx int) *nd {
 	must(s.ReadKeys(strings.NewReader(keyPool[keyIdx][0] + "\n" + keyPool[keyIdx][1] + "\n")))
 	id, err := encryption.GetClientIDFromPublicKey(s.GetPublicKey())
 	must(err)
-	return &nd{tok: tok, id: id, pub: s.GetPublicKey()}
+	return &nd{tok: tok, id: id, pub: s.GetPublicKey(), sign: func(h string) (string, error) { return s.Sign(h) }}
 }
 
 func pool(t node.NodeType, ns []*nd) *node.Pool {
